@@ -800,6 +800,12 @@ pub fn workers_for(work_units: usize, max: usize) -> usize {
     work_units.clamp(1, max.max(1))
 }
 
+/// Verification hook: expose the crate-private cpulist parser.
+#[cfg(feature = "verif-hooks")]
+pub fn verif_parse_cpulist(s: &str) -> Vec<usize> {
+    parse_cpulist(s)
+}
+
 #[cfg(test)]
 mod tests {
     use super::*;
